@@ -910,6 +910,13 @@ class Network:
                 return_when=asyncio.FIRST_COMPLETED
             )
 
+        except asyncio.CancelledError:
+            # Cancelled after the peer already connected back: nobody is going
+            # to use that connection
+            if expected_connection_future.done() and not expected_connection_future.cancelled():
+                await expected_connection_future.result().disconnect(CloseReason.REQUESTED)
+            raise
+
         finally:
             # Whatever happens here (also a cancellation or a failed send), we
             # can cancel all pending futures
